@@ -202,6 +202,17 @@ def _s17(s):
             lab(L), call('rec', 2, I(L)), call('ra', 3, I(L)), op(None, I(L))]
 
 
+@skeleton('empty-expansion-before-a-sibling', 3, lambda s: True)
+def _s18(s):
+    P, It, L = s
+    # an expansion that emits nothing (its only content is a rep of count 0) followed at the SAME address by a sibling call / a label
+    return [mdef('leaf', [P], body=[op(None, I(P))]),
+            mdef('nothing', [P], body=[rep(0, It, 'leaf', I(P))]),
+            mdef('maybe', ['c', P], body=[rep(I('c'), It, 'leaf', ('+', I(P), I(It)))]),
+            call('nothing', 1), call('leaf', 2), call('maybe', 0, 3), lab(L), call('maybe', 0, I(L)), call('maybe', 2, I(L)), call('nothing', I(L)),
+            op(None, I(L))]
+
+
 def programs(pool=POOL):
     """yield (skeleton name, slots, program, collisions) for every well-formed assignment"""
     for name, n, wf, build in SKELETONS:
